@@ -293,6 +293,12 @@ func propC03(c *Ctx) {
 		c.Violation("R3.3", "delete-statements", m.del.Pos(), fmt.Sprintf("expected a cursor delete and a destination delete, found %d", nDel))
 	}
 
+	c.Rule("R3.8", "the hash recorded with a position is the hash of the block whose rows were written at that position (it is what the next step's parent comparison runs against)", 2)
+	if upds, inss := m.calls(m.update), m.calls(m.insert); len(upds) == 1 && len(inss) == 1 {
+		checkPositionFromLastInserted(c, "R3.8", upds[0], inss[0].Call.Args[3])
+	} else {
+		c.Violation("R3.8", "Converge/insert+update", conv.Pos(), fmt.Sprintf("expected exactly one insert and one update call in Converge, found %d/%d", len(inss), len(upds)))
+	}
 	c.Rule("R3.6", "a segment rejected by validate() (e.g. a mixed old/new chain) is never cached", 3)
 	checkCacheStoresOnlySuccess(c, "R3.6")
 	c.Rule("R3.5", "unwinding removes the rows of every block above the position that remains (positions are per step, rows per block)", 1)
